@@ -1044,6 +1044,11 @@ class Engine:
         # unknown class: group candidate classes
         groups = self.candidates_for_attr(attr)
         ext_groups = self.B.external_attr_groups(self, attr)
+        if (attr.startswith("_") and frame is not None and isinstance(frame_module_of(frame), tuple) and groups and not ext_groups
+                and all(r[0] == "field" for r, _ in groups)):
+            # inside a specification a private name that is a plain instance field on every class that has it reads
+            # that field: no class case split, no feasibility queries (clauses have no implicit exceptions)
+            return self.read_field(base, attr)
         allc = []
         results = []
         for (r, classes) in groups:
